@@ -77,7 +77,8 @@ def evidence_info(prop, tier):
           '(plane pairs) or bounding spheres (geom pairs) from link poses of the '
           'collision-free twin, margin 2*|v|*dt + 1 mm before and after the step',
           'limit guard: every limited coordinate of both twins inside its range '
-          'by 1e-3 (float64) / 1e-2 (float32) before and after the step',
+          'by 1e-3 (float64) / 1e-2 (float32) + 6*|qd_stack|*dt before and '
+          'after the step (the positional pipeline clips an intermediate angle)',
           'resting and rebound use dt = 1 ms (the step size the property names); '
           'thresholds sink <= 6 cm, rest error <= 1 cm, |v_z| <= 0.02 m/s',
           'rebound margins are the ones stated in the property'],
@@ -441,15 +442,34 @@ def _run_twin(g, ctx, x64):
       ctx.probe('no_limited_joint')
       return
     lo_, hi_ = lo[didx], hi[didx]
+    # per limited coordinate: qd indices of the whole joint stack it belongs to
+    stack = []
+    for (t, qi, di) in layout:
+      if t != 'f':
+        for k in range(int(t)):
+          if np.isfinite(lo[di + k]):
+            stack.append(list(range(di, di + int(t))))
+
+    def inside(t, b):
+      """Conservative: the coordinate plus the distance it can travel within
+      one step (positional pipeline clips an intermediate, integrated angle)
+      stays inside the range; factor 3 covers Euler-angle rate amplification
+      for |q| <= 1.2."""
+      for arr in (A, Bt):
+        q = arr[0][b, t][qidx]
+        qd = arr[1][b, t]
+        sp = np.array([np.linalg.norm(qd[s_]) for s_ in stack])
+        mm = m + 6.0 * sp * dt
+        if not (np.all(q > lo_ + mm) and np.all(q < hi_ - mm)):
+          return False
+      return True
     for b in range(nl):
       n = 0
       for t in range(T + 1):
-        qa, qb = A[0][b, t][qidx], Bt[0][b, t][qidx]
-        inside = (np.all(qa > lo_ + m) and np.all(qa < hi_ - m) and
-                  np.all(qb > lo_ + m) and np.all(qb < hi_ - m))
-        if not inside:
+        if not np.all(np.isfinite(A[0][b, t])) or not inside(t, b):
           break
         n = t
+        qa = A[0][b, t][qidx]
         w = hi_ - lo_
         if (np.minimum(qa - lo_, hi_ - qa) < 0.05 * w).any():
           ctx.probe('limit_margin_lt_5pct')
